@@ -344,6 +344,51 @@ class C20Executor(Executor):
                 st.bind(name, fn(self, st))
 
     # ---- sequences of symbolic length: concatenation, repetition, comparison, slicing keeps the array view
+    # ---- int.from_bytes / int.to_bytes on byte strings of concrete length (wide XOR of blocks): exact bit-vector encoding
+    def call(self, st, f, args, kwargs, node):
+        if isinstance(f, VFunc) and f.how == "classattr" and f.a == "int" and f.b == "from_bytes" and args:
+            items = self.concrete_items(st, args[0])
+            order = args[1] if len(args) > 1 else kwargs.get("byteorder", VStr("big"))
+            oc = order.const() if isinstance(order, VStr) else None
+            signed = kwargs.get("signed")
+            if items is not None and oc in ("big", "little") and (signed is None or (isinstance(signed, VBool) and signed.const() is False)) \
+                    and all(isinstance(x, VInt) for x in items):
+                bs = [byte_t(x) for x in items]
+                if not bs:
+                    return [(st, VInt(0))]
+                if oc == "little":
+                    bs = bs[::-1]
+                return [(st, VInt(z3.Concat(*bs) if len(bs) > 1 else bs[0]))]
+        return super().call(st, f, args, kwargs, node)
+
+    def _int_to_bytes(self, st, v, args, kwargs, node):
+        ln = args[0] if args else kwargs.get("length", VInt(1))
+        order = args[1] if len(args) > 1 else kwargs.get("byteorder", VStr("big"))
+        n = ln.const() if isinstance(ln, VInt) else None
+        oc = order.const() if isinstance(order, VStr) else None
+        signed = kwargs.get("signed")
+        if n is None or not 0 <= n <= 4096 or oc not in ("big", "little") or not (signed is None or (isinstance(signed, VBool) and signed.const() is False)):
+            return None
+        t = v.t
+        if not z3.is_bv(t):
+            st2 = self.fork_raise(st, z3.Or(t < 0, t >= 2 ** (8 * n)), "OverflowError")
+            if st2 is None:
+                return []
+            st, t = st2, z3.Int2BV(t, max(8 * n, 1))
+        w = t.size()
+        if w > 8 * n:
+            st2 = self.fork_raise(st, z3.Extract(w - 1, 8 * n, t) != 0, "OverflowError") if n > 0 else self.fork_raise(st, t != 0, "OverflowError")
+            if st2 is None:
+                return []
+            st = st2
+            t = z3.Extract(8 * n - 1, 0, t) if n > 0 else t
+        elif w < 8 * n:
+            t = z3.ZeroExt(8 * n - w, t)
+        bs = [VInt(z3.simplify(z3.Extract(8 * (n - 1 - i) + 7, 8 * (n - 1 - i), t))) for i in range(n)]
+        if oc == "little":
+            bs = bs[::-1]
+        return [(st, VBytes(bs))]
+
     def _grow(self, st, ref, items):
         n, a = st.obj(ref).data
         for t, x in enumerate(items):
@@ -351,6 +396,10 @@ class C20Executor(Executor):
         st.heap[ref] = HeapObj("symarr", (z3.simplify(n + len(items)), a))
 
     def call_method(self, st, obj, name, args, kwargs, node):
+        if isinstance(obj, VInt) and name == "to_bytes":
+            r = self._int_to_bytes(st, obj, args, kwargs, node)
+            if r is not None:
+                return r
         if isinstance(obj, VRef) and st.heap.get(obj.ref) is not None and st.obj(obj.ref).kind == "symarr":
             if name == "extend" and len(args) == 1:
                 items = self.concrete_items(st, args[0])
